@@ -26,6 +26,7 @@ THEOREMS = {
     'sizing_same': ('getSizing_same', ['C08']), 'sizing_largest': ('getSizing_largest', ['C08']),
     'sizing_smallest': ('getSizing_smallest', ['C08']), 'sizing_optimal': ('getSizing_optimal', ['C07', 'C08', 'C09']),
     'needs_pyint': ('needsPyInt', ['C19', 'C09']), 'mul_needs_pyint': ('mulNeedsPyInt', ['C19']),
+    'floordiv_align_fits': ('needsPyInt', ['C09']),
     # the exact scale-down route of a result that loses fraction bits (float route only for integers a double holds)
     'add_exact_path': ('addExactPath', ['C03']), 'sub_exact_path': ('subExactPath', ['C03']),
     'mul_exact_path': ('mulExactPath', ['C03']),
